@@ -2,7 +2,7 @@ SPEC = {
     "id": "C15",
     "coq_props": ["Properties/C15.v", "Corr/C15.v"],
     "module": "MS.Properties.C15",
-    "theorems": ["C15_header_roundtrip", "C15_writes_preserve_header", "C15_guarded", "C15_creatable_storable",
+    "theorems": ["C15_header_roundtrip", "C15_writes_preserve_header", "C15_guarded", "C15_multi_year", "C15_creatable_storable",
                  "C15_create_guarded", "C15_unstorable_rejected", "C15_refuted_jan1"],
     "corr_require": "Require Import MS.Corr.C15.",
     "agrees": "C15.agrees",
@@ -30,7 +30,7 @@ SPEC = {
         "only the first Headersize bytes of the year file are modelled; a write is its effect on that region",
         "variable-length writes: the 24-byte index record found at the primary offset after the real write is recorded and replayed by the "
         "model (its content depends on snappy and the file length); the appended data lies beyond FileSize >= Headersize",
-        "the write's slot index is the one io.TimeToIndex returned (time arithmetic is C30's); writes stay inside the file's year",
+        "the write's slot index is the one io.TimeToIndex returned (time arithmetic is C30's); records of other years create new year files (AddFile from a deep copy of the bucket's TimeBucketInfo), whose header bytes are compared byte-exactly; the reloaded schema is the latest year file's",
         "the harness runs in UTC",
     ],
     "level": "proof",
